@@ -288,6 +288,16 @@ func init() {
 	addScoped("C03", "O2", func(k string) bool { return hasAny(k, "writer/") && !hasAny(k, "zipkin") }, o2)
 	addScoped("C09", "O2", in("reader/"), o2)
 	addScoped("C11", "D8", in("reader/traceql/"), "(D8) terms share a slot of the condition bit set only under a faithful rendering of the term (no decoding function in the key).")
+	addScoped("C19", "O3", in("ctrl/"), "(O3) the retention routines never write into the policy slice they were handed: it is the same slice for every table group, so a clamp written back for one group would change the TTL of the next.")
+	b3 := "(B3) no function calls, while it holds a mutex of an object, a function of that object that takes the same mutex (sync mutexes are not re-entrant: the request would never be answered and the service would wedge)."
+	addScoped("C05", "B3", in("writer/"), b3)
+	addScoped("C01", "B3", in("writer/service", "writer/controller"), b3)
+	addScoped("C12", "B3", in("reader/"), b3)
+	addScoped("C01", "A12", in("writer/"), "(A12) the error a request promise is resolved with is the outcome of the push / INSERT carried unchanged, never an element picked out of an error list or a field read back.")
+	d10 := "(D10) and/or chains are translated by structural recursion: the operator of a chain node joins its head with the translation of its whole tail."
+	addScoped("C07", "D10", in("clickhouse_planner"), d10)
+	addScoped("C09", "D10", in("internal_planner"), d10)
+	addScoped("C11", "D10", in("reader/traceql/"), d10)
 	addScoped("C14", "H5", in(""), "(H5) no package-level variable holds SQL builder objects, so a planner that rewrites columns in place cannot change later translations.")
 	properties["C01"].Filter = keepIf(func(rule, key string) bool { return rule != "O1" || strings.HasPrefix(key, "writer/") })
 	properties["C02"].Filter = keepIf(func(rule, key string) bool { return rule != "O1" || strings.HasPrefix(key, "writer/") })
